@@ -132,7 +132,7 @@ func runImpl(c *Case) Outcome {
 			e.SetAutoReload(true)
 		}
 		for _, g := range sortedKeys(c.Globals) {
-			e.AddGlobal(g, c.Globals[g])
+			e.AddGlobal(g, deepCopy(c.Globals[g])) // every engine gets its own copy: what one engine does to a global stays there
 		}
 		names := sortedKeys(c.Templates)
 		if c.Prime != "" {
@@ -425,6 +425,8 @@ func configAndPerturbOracle(e *Env, c *Case, im Outcome) {
 			break
 		}
 	}
+	sameContextTwice(e, c, im)
+	multiEntryOracle(e, c, im)
 	// perturbed context on a warm engine vs on a fresh one
 	p := map[string]any{}
 	for k, v := range c.Ctx {
@@ -675,4 +677,91 @@ func hasAny(s string, subs ...string) bool {
 		}
 	}
 	return false
+}
+
+// multiEntryOracle (implementation-only, with configAndPerturbOracle): the templates of a case share an engine — and
+// whatever the engine keeps per template (parse trees, macro tables, block tables). Every template of the case is also
+// an entry point: rendered on the engine that has just rendered Main it gives what a fresh engine gives, and Main
+// rendered after it (on the warm engine, and on an engine that rendered the other template FIRST) gives what it gave.
+func multiEntryOracle(e *Env, c *Case, im Outcome) {
+	if len(c.Templates) < 2 {
+		return
+	}
+	runImpl(c)
+	warm := lastEngine
+	if warm == nil {
+		return
+	}
+	render := func(eng *twig.Engine, name string) Outcome {
+		res := guarded(func() (string, error) {
+			ctx, _ := deepCopy(map[string]interface{}(c.Ctx)).(map[string]interface{})
+			return eng.Render(name, ctx)
+		})
+		return Outcome{Out: res.Out, Class: mapClass(res.Class)}
+	}
+	n := 0
+	for _, t := range sortedKeys(c.Templates) {
+		if t == c.Main || n >= 6 {
+			continue
+		}
+		n++
+		c4 := *c
+		c4.Main = t
+		fresh := runImpl(&c4)
+		first := lastEngine
+		if fresh.Class == "panic" || fresh.Class == "timeout" {
+			continue
+		}
+		got := render(warm, t)
+		e.Rep.Hit("other-template-as-entry-on-warm-engine")
+		if got.Class != fresh.Class || got.Out != fresh.Out {
+			rp := c4.replay(fresh, got)
+			rp["kind"] = "multi-entry"
+			rp["rendered_before"] = c.Main
+			e.Rep.Violate(Violation{Key: "earlier-template-changed", What: fmt.Sprintf("template %q rendered on an engine that has rendered %q before gives %q (%s); on a fresh engine %q (%s)", t, c.Main, truncate(got.Out, 120), got.Class, truncate(fresh.Out, 120), fresh.Class),
+				Broken: "theorem C01_history_independence (what one template's render leaves in the engine does not change another template's; implementation-only oracle)", Replay: rp})
+			return
+		}
+		for _, eng := range []*twig.Engine{warm, first} {
+			if eng == nil {
+				continue
+			}
+			again := render(eng, c.Main)
+			if again.Class != im.Class || again.Out != im.Out {
+				rp := c.replay(im, again)
+				rp["kind"] = "multi-entry"
+				rp["rendered_before"] = t
+				e.Rep.Violate(Violation{Key: "earlier-template-changed", What: fmt.Sprintf("template %q rendered after %q on the same engine gives %q (%s); alone %q (%s)", c.Main, t, truncate(again.Out, 120), again.Class, truncate(im.Out, 120), im.Class),
+					Broken: "theorem C01_history_independence (what one template's render leaves in the engine does not change another template's; implementation-only oracle)", Replay: rp})
+				return
+			}
+		}
+	}
+}
+
+// sameContextTwice (implementation-only, with configAndPerturbOracle): callers reuse one context map for many renders.
+// The very same map (and the lists and maps in it) handed to Render twice gives the same result twice — a filter that
+// writes into a list of the context (or into the spare capacity behind a sub-slice of it) shows here.
+func sameContextTwice(e *Env, c *Case, im Outcome) {
+	if len(c.Ctx) == 0 {
+		return
+	}
+	runImpl(c)
+	eng := lastEngine
+	if eng == nil {
+		return
+	}
+	ctx, _ := deepCopy(map[string]interface{}(c.Ctx)).(map[string]interface{})
+	e.Rep.Hit("same-context-object-rendered-twice")
+	for k := 0; k < 2; k++ {
+		res := guarded(func() (string, error) { return eng.Render(c.Main, ctx) })
+		got := Outcome{Out: res.Out, Class: mapClass(res.Class)}
+		if got.Class != im.Class || got.Out != im.Out {
+			rp := c.replay(im, got)
+			rp["kind"] = "same-context-twice"
+			e.Rep.Violate(Violation{Key: "context-reuse-changes-output", What: fmt.Sprintf("render %d with one and the same context map gives %q (%s); the first render gave %q (%s)", k+2, truncate(got.Out, 120), got.Class, truncate(im.Out, 120), im.Class),
+				Broken: "theorem C01_history_independence / C18: a render leaves the caller's context as it found it, so the next render with it gives the same (implementation-only oracle)", Replay: rp})
+			return
+		}
+	}
 }
